@@ -37,8 +37,10 @@ CHECKS["C10"] = {
               "start with the STUN cookie) under random / byte-wise / single / double cut segmentations, plus exhaustive "
               "enumeration of every 1- and 2-cut segmentation of 18 short sequences and of the ConnectionBind replies. "
               "Oracles: exact frame equality, promptness (no Read past a frame's last byte), progress (n>=1), garbage never "
-              "returned as data, BindConnection verdict and consumed bytes independent of segmentation."),
-    "level_note": ("Trusted: the reference framer (harness/ref.NextFrame). Buffers handed to ReadFrom are >= 65600 bytes. "
+              "returned as data, BindConnection verdict and consumed bytes independent of segmentation. One case in four reads with "
+              "a buffer of 24..4096 bytes (the server reads with its InboundMTU): a frame that does not fit must be consumed whole, "
+              "hand over its head and be recognisable as oversize; transient read errors inside a frame must lose nothing."),
+    "level_note": ("Trusted: the reference framer (harness/ref.NextFrame). Buffers handed to ReadFrom are >= 24 bytes. "
                    "Held on everything explored; no absence claim."),
     "technique": "property-based testing: rapid-generated frame sequences x segmentations vs. a reference framer (differential + metamorphic), exhaustive small-stream partitions; native fuzzing in the thorough tier",
     "rule": ("a case is a frame sequence + cut list (+ optional garbage tail), or a ConnectionBind reply + cut list; non-trivial = "
@@ -134,7 +136,9 @@ CHECKS["C07"] = _srv(
     "C07",
     "Independent permission/channel timeouts, install/refresh sequences by CreatePermission and ChannelBind, probes in both "
     "directions 1-2 s before and after each entry's model deadline, re-binds after expiry; library listings must equal the model "
-    "after every step (a refused request must install nothing, a successful one restarts the full timeout).",
+    "after every step (a refused request must install nothing, a successful one restarts the full timeout). Refreshes are also sent "
+    "at the exact instant an entry expires (either order of request and timer is accepted, but success must leave an entry that "
+    "lasts a full timeout). Stage permission-key: the map keys of permissions and the peer comparison of bindings are injective.",
     "non-trivial = some entry is refreshed at least once and probed on both sides of a permission or channel deadline",
     _SRV_NOTE)
 
@@ -211,8 +215,11 @@ CHECKS["C20"] = {
               "histories, plus the exhaustive edge grid of ranges of width <= 8 (incl. MaxPort = 65535 and single-port ranges) x "
               "every draw. Oracles: fresh open socket, advertised IP/port truthful, requested port honoured, every bind attempt and "
               "result inside [MinPort, MaxPort] and equal to MinPort+draw over a draw of exactly the range width, no shared port, "
-              "clean failure (nothing left open) when the range is full, Intn never called with n <= 0."),
-    "level_note": "Trusted: simnet's bind semantics (a port in use cannot be bound again). SO_REUSEPORT behaviour of real kernels on the TCP listener path is not modelled.",
+              "clean failure (nothing left open) when the range is full, Intn never called with n <= 0. Histories also call the allocation "
+              "manager's even-port selection on top of the generator (EVEN-PORT requests): even, inside the range, not in use, nothing "
+              "left open. simnet models SO_REUSEPORT (which the generators ask for on TCP listeners); the resulting shared TCP relay "
+              "port is a recorded known finding."),
+    "level_note": "Trusted: simnet's bind semantics (a port in use cannot be bound again unless both sockets carry the sharing option).",
     "technique": "property-based testing: rapid-generated configurations and allocate/close histories + exhaustive edge grid, validity predicates over results and over every bind attempt",
     "rule": ("a case is a generator configuration + op history; non-trivial = range width <= 4 or MaxPort = 65535 or pre-occupied "
              "ports (range generator), >= 2 ops (static / pass-through); distinct by hash of the case"),
